@@ -349,7 +349,21 @@ impl Prop for C20 {
 
     fn judge(&self, sc: &Scenario, st: Option<&mut Stats>) -> Option<Violation> {
         let s = sc.stream.as_ref()?;
-        if sc.config.starts_with("e2e") {
+        if sc.config.starts_with("e2e") || E2E_ONLY.load(std::sync::atomic::Ordering::Relaxed) {
+            if let Some(st) = st {
+                st.lines += split_lines(&s.data).len() as u64;
+                st.judged += 1;
+                st.probe("judged on the real executable (in-process seam bypassed)");
+                let exp = expected(&s.data);
+                let mut h = crate::rng::Fnv::default();
+                for k in &exp.kinds {
+                    *st.outcomes.entry(k).or_insert(0) += 1;
+                    h.write_str(k);
+                }
+                if !exp.kinds.is_empty() {
+                    st.histories.insert(h.0);
+                }
+            }
             return judge_e2e(&s.data, &s.steps);
         }
         let r = cli::run_cli(&s.data, &s.steps);
@@ -397,6 +411,33 @@ impl Prop for C20 {
         }
         judge_run(&s.data, &r.panicked, true, &r.stdout, &r.stderr, 0, "in-process")
     }
+}
+
+/// set when the CLI source no longer reaches stdin/stdout/stderr through the crate's own
+/// `lib::std::io` seam (see `seam_probe`): every run is then judged on the real executable
+pub static E2E_ONLY: std::sync::atomic::AtomicBool = std::sync::atomic::AtomicBool::new(false);
+
+/// One fixed two-line stream through the in-process CLI. If that does not behave (no output
+/// captured, stdin never opened) while the real executable handles the same stream correctly,
+/// the seam has been bypassed by an edit of the tool - not a violation: fall back to the real
+/// executable for every run. Returns a note for the evidence.
+pub fn seam_probe() -> Option<String> {
+    let data: &[u8] = b"!AIVDM,1,1,,A,403OtVAv6s5l1o?I``E`4I?02<34,0*21\nnoise\n";
+    let r = cli::run_cli(data, &[]);
+    let inproc_ok = r.panicked.is_none()
+        && r.stats.stdin_opened > 0
+        && judge_run(data, &r.panicked, true, &r.stdout, &r.stderr, 0, "in-process").is_none();
+    if inproc_ok {
+        return None;
+    }
+    if judge_e2e(data, &[]).is_none() {
+        E2E_ONLY.store(true, std::sync::atomic::Ordering::Relaxed);
+        return Some(
+            "the hosted CLI does not reach stdin/stdout/stderr through ais::lib::std::io any more while the real executable behaves: all runs of this batch were judged on the real executable over OS pipes (no scripted chunking / EINTR)"
+                .to_string(),
+        );
+    }
+    None
 }
 
 /// the real executable over real pipes, fed in the scenario's chunk sizes
